@@ -52,7 +52,12 @@ impl TimerState {
 
     pub(super) fn init(&mut self, cx: &mut Context<'_>) {
         if let TimerState::Active { timer } = self {
-            let _ = timer.as_mut().poll(cx);
+            // Deadlines are computed from the date service's cached clock, which lags by up to
+            // its update interval, so a short timeout may already have elapsed here. A timer that
+            // is ready now registers no waker: wake the task so the expiry is acted on.
+            if timer.as_mut().poll(cx).is_ready() {
+                cx.waker().wake_by_ref();
+            }
         }
     }
 }
